@@ -897,7 +897,7 @@ def gen_cases(ctx, round, entry):
                 c["form"] = r.choice(forms)
             cs.append(c)
         # -- long tables: row counts 2^k +- 1 beyond stdio and block sizes
-        for nrows in ((16385,) if q else (1025, 4095, 16383, 16385, 32769)):
+        for nrows in ((16385,) if q else (1025, 4095, 16385, 32769)):
             f = [{"name": "i", "t": r.choice(["i2", "u2", "i1"]), "o": r.choice("<>"), "shape": []},
                  {"name": "s", "t": "S1", "o": "|", "shape": []}]
             if nrows < 2000:
@@ -913,7 +913,7 @@ def gen_cases(ctx, round, entry):
             f = [{"name": "i", "t": "i8", "o": ">", "shape": []}, {"name": "s", "t": "S2", "o": "|", "shape": []},
                  {"name": "x", "t": "f4", "o": "<", "shape": [2]}]
             cs.append(mk_case(r, f, nrows, r.choice(DELIMS), "many-rows", True))
-    n = ctx.n(160, 4500) if round == 0 else ctx.n(150, 1500)
+    n = ctx.n(160, 3000) if round == 0 else ctx.n(150, 1500)
     for _ in range(n):
         nf = r.choice([1, 2, 2, 3, 3, 4, 5, 6])
         fields = [rnd_field(r, i) for i in range(nf)]
